@@ -145,18 +145,24 @@ class C18(StrPoolCheck):
         e = vlib.build("exec_stream")
         for i in range(4 if tier == "quick" else 16):
             J.append(vlib.Job("c18-strm-%d" % i, e, ["--random", "300" if tier == "quick" else "3000", "--seed", str(seed * 100 + 40 + i)], "TraceStream"))
+        # a kept ST::float_formatter object: a call refused with bad_format leaves the text it held (TraceFormat.tla)
+        J.append(vlib.Job("c18-ffreuse", vlib.build("exec_format"), ["--gen", "ffreuse"], "TraceFormat"))
         return J
 
     def replay_jobs(self, rej):
         if rej.get("spec") == "TraceStream":
             import p_stream
             return p_stream.StreamCheck().replay_jobs(rej)
+        if rej.get("spec") == "TraceFormat":
+            return [vlib.Job("replay-format", vlib.build("exec_format"), rej["args"], "TraceFormat")]
         return StrPoolCheck.replay_jobs(self, rej)
 
     def describe(self, rej):
         if rej.get("spec") == "TraceStream":
             import p_stream
             return p_stream.StreamCheck().describe(rej)
+        if rej.get("spec") == "TraceFormat":
+            return (rej.get("event") or "")[:400]
         return StrPoolCheck.describe(self, rej)
 
 
